@@ -239,25 +239,26 @@ type c11Script struct {
 	class   string // generator class of the ops
 	rclass  string // match | retyped | prefix | overread
 	fclass  string // fragmentation class
-	eofData bool   // transport returns the last bytes together with io.EOF (oracle only)
+	eofData bool   // the transport returns its last bytes together with io.EOF
 }
 
 // ---- scripted transport (one direction)
 
 type c11Wire struct {
-	mu     sync.Mutex
-	cond   *sync.Cond
-	buf    []byte
-	off    int
-	chunks [][]byte
-	cptr   []*byte
-	total  int // >= 0: the sender will never write more than this many bytes in total
-	segs   []c11Seg
-	si     int // current run
-	sleft  int // segments left in current run
-	segrem int // bytes left of the current segment; -1 unlimited
-	nreads int
-	eofData bool
+	mu          sync.Mutex
+	cond        *sync.Cond
+	buf         []byte
+	off         int
+	chunks      [][]byte
+	cptr        []*byte
+	total       int // >= 0: the sender will never write more than this many bytes in total
+	segs        []c11Seg
+	si          int // current run
+	sleft       int // segments left in current run
+	segrem      int // bytes left of the current segment; -1 unlimited
+	nreads      int
+	eofData     bool
+	eofWithData int // Reads that returned data together with io.EOF
 }
 
 func newC11Wire(segs []c11Seg, eofData bool) *c11Wire {
@@ -338,10 +339,12 @@ func (w *c11Wire) read(p []byte) (int, error) {
 	}
 	for {
 		avail := len(w.buf) - w.off
-		if avail >= want {
+		if w.total >= 0 && len(w.buf) >= w.total {
 			break
 		}
-		if w.total >= 0 && len(w.buf) >= w.total {
+		// when EOF is to accompany the final bytes the transport must know whether
+		// these are the final bytes: wait for more data or for the end of the stream
+		if avail > want || (!w.eofData && avail >= want) {
 			break
 		}
 		w.cond.Wait()
@@ -364,6 +367,7 @@ func (w *c11Wire) read(p []byte) (int, error) {
 		}
 	}
 	if w.eofData && w.total >= 0 && w.off >= w.total {
+		w.eofWithData++
 		return n, io.EOF
 	}
 	return n, nil
@@ -625,11 +629,12 @@ func c11RandOp(r *RNG, c *Ctx, big bool) c11Op {
 }
 
 // c11GenOps builds the send ops of one direction.  class:
-//   small    only small values
-//   mixed    small values and some payloads around the 64 KiB buffer size
-//   boundary first a payload that leaves WritePos at 64Ki-k (k=0..17), then fixed-size values
-//   bigstream payloads adding up to more than the 1 MiB read buffer
-//   huge     (thorough) a payload around 1 MiB / 2 MiB / 3 MiB
+//
+//	small    only small values
+//	mixed    small values and some payloads around the 64 KiB buffer size
+//	boundary first a payload that leaves WritePos at 64Ki-k (k=0..17), then fixed-size values
+//	bigstream payloads adding up to more than the 1 MiB read buffer
+//	huge     (thorough) a payload around 1 MiB / 2 MiB / 3 MiB
 func c11GenOps(r *RNG, c *Ctx, class string, flushP int) []c11Op {
 	var ops []c11Op
 	add := func(o c11Op) {
@@ -859,6 +864,7 @@ func c11GenScript(r *RNG, c *Ctx, mode int, class string) *c11Script {
 			s.recv = append(append([]int(nil), match...), []int{c11KByte, c11KU16, c11KU32, c11KData, c11KLabel, c11KSizes}[r.Intn(6)])
 		}
 		s.segs, s.fclass = c11GenSegs(r, c11StreamLen(s.ops))
+		s.eofData = r.Intn(4) == 0
 	} else {
 		s.fclass = "pipe-chunks"
 	}
@@ -874,7 +880,7 @@ func (s *c11Script) inputSX(mode int) SX {
 	for _, sg := range s.segs {
 		frags = append(frags, L(I(sg.count), I(sg.size)))
 	}
-	return L(I(mode), L(ops...), Ints(s.recv), L(frags...))
+	return L(I(mode), L(ops...), Ints(s.recv), L(frags...), Bool(s.eofData))
 }
 
 func (s *c11Script) text() string {
@@ -882,7 +888,7 @@ func (s *c11Script) text() string {
 	for _, o := range s.ops {
 		t += o.String() + ";"
 	}
-	return fmt.Sprintf("ops=%s recv=%v segs=%v", t, s.recv, s.segs)
+	return fmt.Sprintf("ops=%s recv=%v segs=%v eofWithData=%v", t, s.recv, s.segs, s.eofData)
 }
 
 // ---- sessions
@@ -1067,7 +1073,12 @@ func c11Judge(c *Ctx, sess int, mode int, name string, d *c11Dir) {
 		}
 		for i := 0; i < nExp; i++ {
 			if i >= len(d.recv.vals) {
-				fail(fmt.Sprintf("c11:recv:%s:error", c11KindName(s.recv[i])), fmt.Sprintf("receive %d failed: %v", i, d.recv.err))
+				key := fmt.Sprintf("c11:recv:%s:error", c11KindName(s.recv[i]))
+				if s.eofData && d.recv.err == io.EOF {
+					// the value's bytes were on the wire; the transport handed the last of them over with io.EOF
+					key = "c11:Fill:data-with-EOF-dropped"
+				}
+				fail(key, fmt.Sprintf("receive %d (%s) failed: %v", i, c11KindName(s.recv[i]), d.recv.err))
 				break
 			}
 			if !d.recv.vals[i].equal(sent[i]) {
@@ -1086,7 +1097,11 @@ func c11Judge(c *Ctx, sess int, mode int, name string, d *c11Dir) {
 		}
 	case "retyped":
 		if d.recv.err != nil {
-			fail("c11:recv:retyped:error", d.recv.err.Error())
+			key := "c11:recv:retyped:error"
+			if s.eofData && d.recv.err == io.EOF {
+				key = "c11:Fill:data-with-EOF-dropped"
+			}
+			fail(key, d.recv.err.Error())
 			break
 		}
 		var got []byte
@@ -1131,11 +1146,11 @@ func runC11(c *Ctx) error {
 	}
 	plans := []plan{
 		{0, "small", c.N(280, 4000)},
-		{0, "mixed", c.N(16, 600)},
-		{0, "boundary", c.N(12, 300)},
+		{0, "mixed", c.N(12, 600)},
+		{0, "boundary", c.N(10, 300)},
 		{0, "bigstream", c.N(1, 12)},
 		{1, "small", c.N(60, 1000)},
-		{1, "mixed", c.N(6, 150)},
+		{1, "mixed", c.N(4, 150)},
 		{1, "boundary", c.N(3, 80)},
 		{1, "bigstream", c.N(0, 4)},
 	}
@@ -1167,6 +1182,12 @@ func runC11(c *Ctx) error {
 				c.Hist("recv:" + s.rclass)
 				c.Hist("frag:" + s.fclass)
 				c.Hist(fmt.Sprintf("mode:%d", p.mode))
+				if s.eofData {
+					c.Hist("eof:flag-set")
+					if d.wire != nil && d.wire.eofWithData > 0 {
+						c.Hist("eof:final-bytes-delivered-with-io.EOF")
+					}
+				}
 				nvals := 0
 				for _, o := range s.ops {
 					c.Hist("op:" + c11KindName(o.kind))
@@ -1198,43 +1219,5 @@ func runC11(c *Ctx) error {
 			sess++
 		}
 	}
-	// observation outside the property's quantifier (not a fragmentation): a transport
-	// that returns its last bytes together with io.EOF, which the io.Reader contract allows
-	c11EOFProbe(c)
 	return nil
-}
-
-// c11EOFProbe: Fill drops the bytes of a Read that returns (n > 0, io.EOF).
-func c11EOFProbe(c *Ctx) {
-	r := c.rng.Fork()
-	lost := 0
-	const n = 20
-	for i := 0; i < n; i++ {
-		ab := &c11Dir{script: c11GenScript(r, c, 0, "small")}
-		ba := &c11Dir{script: c11GenScript(r, c, 0, "small")}
-		for _, s := range []*c11Script{ab.script, ba.script} {
-			if s.ops[len(s.ops)-1].kind != c11KClose {
-				s.ops = append(s.ops, c11Op{kind: c11KClose})
-			}
-			s.recv = nil
-			for _, o := range s.ops {
-				if o.kind < c11KFlush {
-					s.recv = append(s.recv, o.kind)
-				}
-			}
-			s.rclass = "match"
-			s.eofData = true
-		}
-		ok, _ := c11RunSession(0, ab, ba)
-		if !ok {
-			c.Note("eof-with-data probe: session hung")
-			return
-		}
-		for _, d := range []*c11Dir{ab, ba} {
-			if d.recv.err != nil {
-				lost++
-			}
-		}
-	}
-	c.Note("transport returning its final bytes together with io.EOF (allowed by io.Reader, not produced by io.Pipe/TCP): %d of %d directions lost the final value(s) (Fill discards got when err != nil); not a read fragmentation, reported as an observation only", lost, 2*n)
 }
